@@ -614,6 +614,11 @@ func permTypes(m *Model, perm []int) *Model {
 // wgCheck runs one schedule against the workload and returns the mismatches
 // (all properties; the caller filters).
 func (c *wgCtx) check(cfg simrt.Config) ([]mismatch, simrt.Stats, string) {
+	mm, st, summary := c.check0(cfg)
+	return settleAborted([]string{"C04", "C05", "C06", "C10", "C11"}, c.wl.Variant == "concurrent", mm, st), st, summary
+}
+
+func (c *wgCtx) check0(cfg simrt.Config) ([]mismatch, simrt.Stats, string) {
 	var mm []mismatch
 	add := func(prop, class, node, f string, a ...any) {
 		mm = append(mm, mismatch{prop, class, node, fmt.Sprintf(f, a...)})
